@@ -12,6 +12,8 @@ PROP = dict(
             dict(kind="walk", name="admission", module="Admission", pkg="collect", test="TestVerifAdmission", harness=["collect/collector_test.go", "collect/admission_test.go"],
                  cfg={"quick": "MC_Admission_q.cfg", "thorough": "MC_Admission_big.cfg"}, budget={"quick": 20, "thorough": 120}, maxwalk=20),
             dict(kind="tlc", name="liveness", module="MCCollectorBacklog", cfg={"quick": None, "thorough": "MC_Collector_live.cfg"}, workers=8),
+            dict(kind="gotest", name="backpressure", pkg="collect", test="TestVerifBackpressure", harness=["collect/collector_test.go", "collect/backpressure_test.go"],
+                 budget={"quick": 60, "thorough": 60}),
             dict(kind="trace", name="concurrent", module="TraceCollector", cfg="TraceCollector.cfg", pkg="collect", test="TestVerifCollectorTrace",
                  harness=["collect/collector_test.go", "collect/collector_trace_test.go"], race=True, budget={"quick": 15, "thorough": 120})],
 )
